@@ -3,13 +3,14 @@
 (* Exhaustive check of the routing tables (C09) and generation of the      *)
 (* expectations the harness compares the real trainers with.               *)
 (*                                                                         *)
-(* State: a trainer configuration cf = [k, r1, r2] (kind and the sign      *)
-(* classes of its two learning rates; plasticity for homeostasis), the     *)
-(* number n of training calls made, and the two parts accumulated in the   *)
-(* updater so far (items tagged with the call that handed them over).      *)
-(* Every initial state is one configuration; Train(call) hands over the    *)
-(* parts of one trainer call (every reward sign pattern / element sign     *)
-(* pattern).  Invariants quantify over ALL calls applicable in each state. *)
+(* State: a trainer of kind k constructed with default sign classes        *)
+(* df = [r1, r2] (plasticity for homeostasis), the cells registered on it  *)
+(* (each [o1, o2]: per-cell overrides or Inherit), the number n of         *)
+(* training calls made, and the parts accumulated in every cell's updater  *)
+(* so far (items tagged with cell and call).  Every initial state is one   *)
+(* trainer with its cells; Train(call) is one forward() over all cells     *)
+(* (every reward sign pattern / element sign pattern / target source).     *)
+(* Invariants quantify over ALL calls applicable in each state.            *)
 (***************************************************************************)
 EXTENDS SplitCore, Json
 
@@ -17,60 +18,102 @@ CONSTANTS
   KindSet,     \* kinds explored
   B,           \* batch size for tensor rewards
   EN,          \* elements for the clamp-split kinds
-  MaxCalls     \* training calls accumulated before an update
+  MaxCalls,    \* training calls accumulated before an update
+  NC,          \* at most NC cells registered on the trainer
+  DfClassesO,  \* sign classes offered for the constructor defaults          } cfg files take no negative
+  OvClassesO   \* what a cell may override a rate with (classes / Inherit)   } numbers: passed as class + 1
 
 VARIABLE st
 vars == <<st>>
 
-Cfgs == {[k |-> k, r1 |-> a, r2 |-> b] : k \in KindSet \ KHomeo, a \in Classes, b \in Classes}
-        \cup {[k |-> k, r1 |-> a, r2 |-> 0] : k \in KindSet \cap KHomeo, a \in Classes}
+DfClasses == {c - 1 : c \in DfClassesO}
+OvClasses == {c - 1 : c \in OvClassesO}      \* 3 stands for Inherit (= 2)
 
-Calls(cf) ==
-  CASE cf.k \in KGe2 \cup KLt2 -> {[form |-> "none"]}
-    [] cf.k \in KGe3 \cup KLt3 ->
+Dfs(k) == IF k \in KHomeo THEN {[r1 |-> a, r2 |-> 0] : a \in DfClasses}
+          ELSE {[r1 |-> a, r2 |-> b] : a \in DfClasses, b \in DfClasses}
+CellCfgs(k) == IF k \in KHomeo THEN {[o1 |-> a, o2 |-> Inherit] : a \in OvClasses}
+               ELSE {[o1 |-> a, o2 |-> b] : a \in OvClasses, b \in OvClasses}
+CellLists(k) == UNION {[1..m -> CellCfgs(k)] : m \in 1..NC}
+
+Calls(k) ==
+  CASE k \in KGe2 \cup KLt2 -> {[form |-> "none"]}
+    [] k \in KGe3 \cup KLt3 ->
          {[form |-> "scalar", s |-> c] : c \in Classes}
          \cup {[form |-> "tensor", sv |-> v] : v \in [1..B -> Classes]}
-    [] cf.k \in KClamp -> {[form |-> "elems", v1 |-> x, v2 |-> y] : x \in [1..EN -> Classes], y \in [1..EN -> Classes]}
-    [] cf.k \in KHomeo -> {[form |-> "rates", d |-> x] : x \in [1..EN -> Classes]}
+    [] k \in KClamp -> {[form |-> "elems", v1 |-> x, v2 |-> y] : x \in [1..EN -> Classes], y \in [1..EN -> Classes]}
+    [] k \in KHomeo -> {[form |-> "rates", d |-> x, tg |-> g] : x \in [1..EN -> Classes], g \in {"call", "none"}}
 
-Tag(seq, n) == [j \in DOMAIN seq |-> [t |-> seq[j].t, i |-> seq[j].i, c |-> seq[j].c, n |-> n]]
+Tag(seq, j, n) == [i \in DOMAIN seq |-> [t |-> seq[i].t, i |-> seq[i].i, c |-> seq[i].c, cell |-> j, n |-> n]]
+RECURSIVE Cat(_, _)
+Cat(f, j) == IF j > Len(f) THEN <<>> ELSE f[j] \o Cat(f, j + 1)
 
 Apply(s, call) ==
-  LET rt == Route(s.cf, call) IN
-  {[st |-> [s EXCEPT !.n = @ + 1, !.pos = @ \o Tag(rt.pos, s.n + 1), !.neg = @ \o Tag(rt.neg, s.n + 1),
-                     !.rule = @ \cup {[m |-> x.m, sg |-> x.sg, n |-> s.n + 1] : x \in Rule(s.cf, call)}],
-    ret |-> rt]}
+  LET outs == Forward(s.k, s.df, s.cells, call)
+      m == s.n + 1
+  IN {[st |-> [s EXCEPT !.n = m,
+                        !.pos = @ \o Cat([j \in DOMAIN outs |-> Tag(outs[j].res.pos, j, m)], 1),
+                        !.neg = @ \o Cat([j \in DOMAIN outs |-> Tag(outs[j].res.neg, j, m)], 1),
+                        !.rule = @ \cup UNION {{[m |-> x.m, sg |-> x.sg, cell |-> j, n |-> m] :
+                                                   x \in Rule(CellCf(s.k, s.df, s.cells[j]), call)} : j \in DOMAIN s.cells}],
+    ret |-> outs]}
 
-Init == \E cf \in Cfgs : st = [cf |-> cf, n |-> 0, pos |-> <<>>, neg |-> <<>>, rule |-> {}]
+Init == \E k \in KindSet : \E df \in Dfs(k) : \E cl \in CellLists(k) :
+           st = [k |-> k, df |-> df, cells |-> cl, n |-> 0, pos |-> <<>>, neg |-> <<>>, rule |-> {}]
 Next == /\ st.n < MaxCalls
-        /\ \E call \in Calls(st.cf) : \E o \in Apply(st, call) : st' = o.st
+        /\ \E call \in Calls(st.k) : \E o \in Apply(st, call) : st' = o.st
 Spec == Init /\ [][Next]_vars
 
 (***************************************************************************)
-(* Properties                                                              *)
+(* Properties (they only depend on the trainer and its cells, which never  *)
+(* change: evaluated where n = 0)                                          *)
 (***************************************************************************)
-\* every call in every configuration: parts non-negative, net = signed rule, None only when empty
-\* (they only depend on the configuration, which never changes: evaluated where n = 0)
-Split == st.n > 0 \/ \A call \in Calls(st.cf) : SplitOK(st.cf, call)
-Direction == st.n > 0 \/ \A call \in Calls(st.cf) :
-                DirectionOK(st.cf, call) /\ RewardFlipOK(st.cf, call) /\ HomeoDirectionOK(st.cf, call)
+\* every call, every cell: parts non-negative, net = the signed rule of THAT CELL's own
+\* configuration, None only when empty
+Split == st.n > 0 \/
+  \A call \in Calls(st.k) :
+     LET outs == Forward(st.k, st.df, st.cells, call) IN
+     \A j \in DOMAIN st.cells :
+        LET cf == CellCf(st.k, st.df, st.cells[j])
+            rt == outs[j].res
+        IN NonNeg(rt) /\ Nets(rt, Rule(cf, call)) /\ NoneOK(rt)
 
-\* what has accumulated in the updater over several calls (e.g. a positive then a
+\* no state leaks between the cells of one trainer: what a cell receives is what it would
+\* receive were it the only cell registered; the reward is scaled exactly once for every
+\* cell; a homeostasis cell falls back on its own target
+CellsIndependent == st.n > 0 \/
+  \A call \in Calls(st.k) :
+     LET outs == Forward(st.k, st.df, st.cells, call) IN
+     \A j \in DOMAIN st.cells :
+        /\ outs[j] = Forward(st.k, st.df, <<st.cells[j]>>, call)[1]
+        /\ (st.k \in KGe3 \cup KLt3 => outs[j].sx = 1)
+        /\ (st.k \in KHomeo => outs[j].tg = IF call.tg = "call" THEN "call" ELSE "own")
+
+Direction == st.n > 0 \/
+  \A call \in Calls(st.k) : \A j \in DOMAIN st.cells :
+     LET cf == CellCf(st.k, st.df, st.cells[j]) IN
+     DirectionOK(cf, call) /\ RewardFlipOK(cf, call) /\ HomeoDirectionOK(cf, call)
+
+\* what has accumulated in the updaters over several calls (e.g. a positive then a
 \* negative reward): still only positive coefficients, and pos - neg is the sum of the
-\* signed rules of the calls made
-RECURSIVE AccCoef(_, _, _, _)
-AccCoef(seq, m, n, j) ==
-  IF j > Len(seq) THEN 0
-  ELSE (IF seq[j].t = m.t /\ seq[j].i = m.i /\ seq[j].n = n THEN seq[j].c ELSE 0) + AccCoef(seq, m, n, j + 1)
+\* signed rules of the calls made, cell by cell
+RECURSIVE AccCoef(_, _, _, _, _)
+AccCoef(seq, m, j, n, i) ==
+  IF i > Len(seq) THEN 0
+  ELSE (IF seq[i].t = m.t /\ seq[i].i = m.i /\ seq[i].cell = j /\ seq[i].n = n THEN seq[i].c ELSE 0)
+       + AccCoef(seq, m, j, n, i + 1)
 Accumulated ==
-  /\ \A j \in DOMAIN st.pos : st.pos[j].c = 1
-  /\ \A j \in DOMAIN st.neg : st.neg[j].c = 1
-  /\ \A x \in st.rule : x.sg # 0 => AccCoef(st.pos, x.m, x.n, 1) - AccCoef(st.neg, x.m, x.n, 1) = x.sg
+  /\ \A i \in DOMAIN st.pos : st.pos[i].c = 1
+  /\ \A i \in DOMAIN st.neg : st.neg[i].c = 1
+  /\ \A x \in st.rule : x.sg # 0 =>
+        AccCoef(st.pos, x.m, x.cell, x.n, 1) - AccCoef(st.neg, x.m, x.cell, x.n, 1) = x.sg
 
 (***************************************************************************)
-(* Generation: one line per state with the routing of every call           *)
+(* Generation: one line per trainer (n = 0) with, for every call, what     *)
+(* every cell receives and the signed rule of every cell                   *)
 (***************************************************************************)
 Emit == st.n > 0 \/
-        PrintT(ToJson([s |-> st.cf, out |-> {[op |-> call, res |-> Route(st.cf, call), rule |-> Rule(st.cf, call)] :
-                                              call \in Calls(st.cf)}]))
+        PrintT(ToJson([s |-> [k |-> st.k, df |-> st.df, cells |-> st.cells],
+                       out |-> {[op |-> call, cells |-> Forward(st.k, st.df, st.cells, call),
+                                 rules |-> [j \in DOMAIN st.cells |-> Rule(CellCf(st.k, st.df, st.cells[j]), call)]] :
+                                  call \in Calls(st.k)}]))
 =============================================================================
